@@ -1,4 +1,5 @@
 //! vh_obj — properties about dicom-object (file meta group, attribute operations, lazy reader / collector).
+mod c06;
 mod c09;
 mod c13;
 mod rle;
@@ -7,6 +8,7 @@ use vhc::*;
 fn main() {
     run_main(
         |prop, ctx| match prop {
+            "C06" => Some(c06::cases(ctx)),
             "C09" => Some(c09::cases(ctx)),
             "C13" => Some(c13::cases(ctx)),
             _ => None,
